@@ -340,7 +340,7 @@ def det_collisions(tier, rng):
     out = []
     out += collision_mappings(ALIAS_VARIANTS[:2], "", 2, [1, 2, 11, 0, 3])
     out += collision_mappings(ALIAS_VARIANTS[:2], "", 3, [1, 2])
-    out += collision_mappings(ALIAS_VARIANTS, "", 3, [1, 2, 11], rng, 300 if tier == "quick" else 2500, extra={"g": "other"})
+    out += collision_mappings(ALIAS_VARIANTS, "", 3, [1, 2, 11], rng, 200 if tier == "quick" else 2500, extra={"g": "other"})
     out += collision_mappings(ALIAS_VARIANTS, "", 4, [1, 2], rng, 150 if tier == "quick" else 1200)
     out += collision_mappings(ALIAS_NEQ, "", 2, [1, 2], rng, 40)
     return [{"sel": m, "condition": "sel"} for m in out]
@@ -358,7 +358,7 @@ def gen_det(tier, rng):
         if len(s) <= 2:
             out.append({"det": {"sel": s, "k": [s, "z"], "condition": "sel or k"}})
             out.append({"det": {"sel": {"f|contains": s, "g|re": s}, "condition": "sel"}})
-    for _ in range(500 if tier == "quick" else 14000):
+    for _ in range(350 if tier == "quick" else 14000):
         out.append({"det": rsection(rng)})
     return out
 
@@ -370,8 +370,13 @@ def det_to_coq(c, r):
     d1 = cout_sec(r["d1"])
     d2 = cout_sec(r["d2"]) if "d2" in r else d1
     if d1 is None or d2 is None: return None
+    a1 = csec(r["a1"]) if isinstance(r.get("a1"), dict) else None
+    a1 = f"({a1[0]}, {a1[1]})" if a1 is not None else "([], CNone)"      # not a section any more: differs from every source
+    w1 = cout_sec(r["w1"]) if "w1" in r else d1
+    d2b = cout_sec(r["d2b"]) if "d2b" in r else d1
     return (f"(({s[0]} : list (str * ddef)), {s[1]}, ({d1} : outcome plainsec), ({d2} : outcome plainsec), "
-            f"({cstr(r['q1'])} : str), ({cstr(r.get('q2', ''))} : str))")
+            f"({cstr(r['q1'])} : str), ({cstr(r.get('q2', ''))} : str), "
+            f"(({a1} : plainsec), ({w1} : outcome plainsec), ({d2b} : outcome plainsec)))")
 
 
 def walk_defs(d):
@@ -528,10 +533,10 @@ def hist_collisions(tier, rng):
     fields = ["t", "s1", "s2"]
     q = tier == "quick"
     for ch in (HIST_CHAINS[:2] if q else HIST_CHAINS[:4]):
-        ms += collision_mappings(fields, ch, 2, [1, 2, 11, 0], rng, 250 if q else None)
-        ms += collision_mappings(fields, ch, 3, [1, 2], rng, (960 if ch == "" else 300) if q else None)
+        ms += collision_mappings(fields, ch, 2, [1, 2, 11, 0], rng, 150 if q else None)
+        ms += collision_mappings(fields, ch, 3, [1, 2], rng, (300 if ch == "" else 120) if q else None)
     for ch in HIST_CHAINS[2:]:
-        ms += collision_mappings(fields + ["s3"], ch, 3, [1, 2, 11], rng, 40 if q else 700, extra={"u": "other"})
+        ms += collision_mappings(fields + ["s3"], ch, 3, [1, 2, 11], rng, 25 if q else 700, extra={"u": "other"})
     ms += collision_mappings(fields + ["s3"], "", 4, [1, 2], rng, 100 if q else 1500)
     ms += collision_mappings(fields + ["s3"], "re", 4, [1, 2, 11], rng, 100 if q else 1500, extra={"u|re": "o.*"})
     out = [{"det": {"sel": m, "condition": "sel"}, "tr": MAP3, "vars": {}} for m in ms]
@@ -560,7 +565,7 @@ def gen_hist(tier, rng):
                 out.append({"det": {"sel": {"f" + al: v1, "g" + al: v2, "c|all": "q"}, "condition": "sel"}, "tr": TRS[0], "vars": {}})
                 out.append({"det": {"sel": {"f" + al: v1, "g" + al: v2}, "condition": "sel"}, "tr": TRS[0], "vars": {}})
     out += hist_collisions(tier, rng)
-    n = 150 if tier == "quick" else 5000
+    n = 100 if tier == "quick" else 5000
     tries = 0
     while n > 0 and tries < 100000:
         tries += 1
@@ -820,6 +825,14 @@ def falsy_docs(tier, rng):
 
 def gen_doc(tier, rng):
     out = falsy_docs(tier, rng)
+    if tier == "quick":
+        # the quick tier keeps every correlation-condition boundary case and a seeded half of the rest
+        def keep(c):
+            cond = c["doc"].get("correlation", {}).get("condition") if isinstance(c["doc"].get("correlation"), dict) else None
+            return isinstance(cond, dict) and any(not v and v is not None for v in cond.values())
+        always = [c for c in out if keep(c)]
+        rest = [c for c in out if not keep(c)]
+        out = always + rng.sample(rest, min(len(rest), 700))
     n = 100 if tier == "quick" else 1500
     for _ in range(n):
         m = rmeta(rng, "rule"); m["logsource"] = rlogsource(rng); m["detection"] = loadable_section(rng)
@@ -856,7 +869,9 @@ def doc_to_coq(c, r):
     subt = (f"({ln(clist(str(x) for x in sub['shapes']))}, {ln(clist(str(sc[k]) for k in sub['custom']))}, {cbool(sub['flag'])}, "
             f"{ln(clist(str(sc.get(k, SUBK.get(k, 999))) for k in sub['keys']))})")
     return (f"({kind}, ({shapes} : list (N * N)), {ln(custom)}, {ln(keys)}, {subt}, ({j1} : outcome str), ({j2} : outcome str), "
-            f"({jy} : outcome str), {ln(cstr(r['q1']))}, {ln(cstr(r.get('q2', '')))}, {ln(cstr(r.get('qy', '')))})")
+            f"({jy} : outcome str), {ln(cstr(r['q1']))}, {ln(cstr(r.get('q2', '')))}, {ln(cstr(r.get('qy', '')))}, "
+            f"(({clist(f'({cstr(a)}, {cstr(b)})' for a, b in r.get('pur', []))} : list (str * str)), "
+            f"({clist(cout_str(o) for o in r.get('again', []))} : list (outcome str))))")
 
 
 def doc_strings(x):
